@@ -126,6 +126,13 @@ func targetMain(args []string) {
 				printKeys()
 			} else if len(f) == 1 && f[0] == "KEYS" {
 				printKeys()
+			} else if len(f) == 2 && f[0] == "LATETX" {
+				// failpoint of net/udp (verif hook): the next n transmit timestamps are not delivered in time
+				n, _ := strconv.Atoi(f[1])
+				udp.VerifLateTXTimestamps(n)
+				fmt.Printf("LOG LATETX %d\n", n)
+			} else if len(f) == 1 && f[0] == "LATETX?" {
+				fmt.Printf("LOG PENDING %d\n", udp.VerifLateTXTimestampsPending())
 			}
 		}
 	}()
@@ -366,6 +373,52 @@ func (t *Target) Keys(cmd string, d time.Duration) (map[int]int64, bool) {
 			return nil, false
 		case <-t.done:
 			return nil, false
+		}
+	}
+}
+
+// Command sends a line to the child's command reader and waits for the LOG line that starts with reply.
+func (t *Target) Command(line, reply string, d time.Duration) bool {
+	t.DrainLogs()
+	if _, err := io.WriteString(t.stdin, line+"\n"); err != nil {
+		return false
+	}
+	deadline := time.After(d)
+	for {
+		select {
+		case ln := <-t.logCh:
+			if strings.HasPrefix(ln, "LOG "+reply) {
+				return true
+			}
+		case <-deadline:
+			return false
+		case <-t.done:
+			return false
+		}
+	}
+}
+
+// LateTXPending asks the child how many armed late-timestamp failpoints have not fired yet (-1: no answer).
+func (t *Target) LateTXPending(d time.Duration) int {
+	t.DrainLogs()
+	if _, err := io.WriteString(t.stdin, "LATETX?\n"); err != nil {
+		return -1
+	}
+	deadline := time.After(d)
+	for {
+		select {
+		case ln := <-t.logCh:
+			if strings.HasPrefix(ln, "LOG PENDING ") {
+				n, err := strconv.Atoi(strings.TrimSpace(strings.TrimPrefix(ln, "LOG PENDING ")))
+				if err != nil {
+					return -1
+				}
+				return n
+			}
+		case <-deadline:
+			return -1
+		case <-t.done:
+			return -1
 		}
 	}
 }
